@@ -1017,7 +1017,37 @@ mod e2e {
                     s.oracle_fail(i, class, &format!("query failed: {q} -> {st} {}", resp.msg));
                     continue;
                 }
-                // the reference selection is what the engine returns for the same FOR/WHERE without
+                // Reference 1: the rows written by this session that satisfy FOR/WHERE (ground truth).
+                // If the response is right against the ground truth it is right, whatever the engine's
+                // own unordered selection says.
+                {
+                    let truth: Vec<SV> = matching.iter().map(|x| x.0.clone()).collect();
+                    let want_t = limit.map_or(truth.len().saturating_sub(m), |l| l.min(truth.len().saturating_sub(m)));
+                    let ids: Vec<u64> = resp.rows.iter().filter_map(|x| x.1).collect();
+                    let mut sid = ids.clone();
+                    sid.sort();
+                    let distinct_t = ids.len() == resp.rows.len() && sid.windows(2).all(|w| w[0] != w[1]);
+                    let got_t: Option<Vec<SV>> = if *ret_k { None } else { resp.rows.iter().map(|(cell, _)| key_of_cell(c, cell)).collect() };
+                    if let (true, true, Some(got_t)) = (distinct_t, resp.rows.len() == want_t, got_t) {
+                        let ok = if *ordered {
+                            let mut reference: Vec<&SV> = truth.iter().collect();
+                            reference.sort_by(|x, y| { let o = ref_cmp(c, x, y); if *desc { o.reverse() } else { o } });
+                            reference.iter().skip(m).take(limit.unwrap_or(usize::MAX)).zip(got_t.iter()).all(|(e, g)| ref_cmp(c, e, g) == Ordering::Equal)
+                        } else {
+                            let mut pool: Vec<&SV> = truth.iter().collect();
+                            got_t.iter().all(|g| match pool.iter().position(|p| ref_cmp(c, p, g) == Ordering::Equal) {
+                                Some(ix) => { pool.swap_remove(ix); true }
+                                None => false,
+                            })
+                        };
+                        if ok {
+                            s.tally("q_right_against_written_rows");
+                            s.oracle_ok();
+                            continue;
+                        }
+                    }
+                }
+                // Reference 2: the selection the engine returns for the same FOR/WHERE without
                 // ORDER BY / LIMIT / OFFSET (whether that selection is right is C02/C03's subject)
                 if !*stable || base.rows.iter().any(|x| x.1.is_none()) {
                     s.tally("q_base_unstable");
@@ -1044,7 +1074,8 @@ mod e2e {
                     continue;
                 };
                 if !distinct || !from_base || resp.rows.len() != want {
-                    let class = if *ordered && distinct && from_base { e2e_class(c, &keys, flush_at.len()) } else { "-" };
+                    let truth: Vec<SV> = matching.iter().map(|x| x.0.clone()).collect();
+                    let class = if *ordered && distinct { let k1 = e2e_class(c, &keys, flush_at.len()); if k1 == "-" { e2e_class(c, &truth, flush_at.len()) } else { k1 } } else { "-" };
                     s.oracle_fail(i, class, &format!("{q}: returned {} rows (distinct={distinct} from_selection={from_base}), expected {want} of a selection of {bn}; flushes={} zone={zone} col={}", resp.rows.len(), flush_at.len(), col_name(c)));
                     continue;
                 }
@@ -1079,6 +1110,7 @@ mod e2e {
                     s.oracle_ok();
                 } else {
                     let mut class = e2e_class(c, &keys, flush_at.len());
+                    if class == "-" { let truth: Vec<SV> = matching.iter().map(|x| x.0.clone()).collect(); class = e2e_class(c, &truth, flush_at.len()); }
                     if class == "-" && limit.is_some() {
                         // diagnostic: the same ORDER BY with LIMIT = size of the selection makes the RLTE
                         // planner give up (k = 10·limit exceeds every cumulative bound) → full scan
